@@ -39,6 +39,16 @@ inline void fail(const std::string& key, const std::string& msg)
   }
   throw Violation(key, msg);
 }
+// evaluates a block of checks as a predicate: true if none of them failed (whatever property they are tagged with)
+template<class F> inline bool holds(F f)
+{
+  Foreign saved = foreign();
+  foreign().owntag.clear();
+  bool ok = true;
+  try { f(); } catch(Violation&) { ok = false; }
+  foreign() = saved;
+  return ok;
+}
 #define VF_CHECK(cond, key, ...) do { if(!(cond)) ::vf::fail(key, ::vf::fmt(__VA_ARGS__)); } while(0)
 
 typedef std::vector<uint16_t> Hist;
